@@ -25,8 +25,7 @@ MFRONT_SOURCES = ["TargetsDescription", "LibraryDescription", "SpecificTargetDes
                   "CompiledTargetDescriptionBase", "MFrontUtilities", "DSLUtilities"]
 UTIL_SOURCES = ["CxxTokenizer", "Token", "CxxTokenizerOptions", "StringAlgorithms", "CxxKeywords"]
 LIBS = ["TFELMFront", "MFrontLogStream", "TFELMaterial", "TFELMathParser", "TFELGlossary", "TFELSystem",
-        "TFELUtilities", "TFELException", "TFELConfig", "TFELUnicodeSupport", "TFELMath", "TFELNUMODIS",
-        "TFELPhysicalConstants"]
+        "TFELUtilities", "TFELException", "TFELConfig", "TFELUnicodeSupport", "TFELMath", "TFELNUMODIS"]
 SITE_READ = "mfront/src/TargetsDescription.cxx:read<TargetsDescription>"
 SITE_MERGE = "mfront/src/TargetsDescription.cxx:mergeTargetsDescription"
 SITE_RUN = "mfront/src/MFront.cxx:analyseTargetsFile/writeTargetsDescription"
